@@ -192,8 +192,6 @@ def gen_cases(ctx):
         for k, g in enumerate(C.enum_graphs(n, MAG_STATES)):
             if not C.is_acyclic(n, g["D"]):
                 continue
-            if n == 4 and tier == "quick" and k % 3 != ctx["seed"] % 3:
-                continue
             c = {"kind": "mag", "g": g, "src": "mag%d" % n}
             if k % 2:
                 c["eseed"] = rng.randrange(1 << 30)
@@ -201,7 +199,7 @@ def gen_cases(ctx):
             cases.append(c)
     # random MAG candidates on 5 nodes (thorough only; the class enumeration is 3^|edges|)
     if tier == "thorough":
-        for k in range(1500):
+        for k in range(4000):
             g = rand_mag_candidate(rng, 5, rng.choice((0.4, 0.55, 0.7)))
             if len(g["D"]) + len(g["B"]) <= 8:
                 cases.append({"kind": "mag", "g": g, "src": "mag5-rnd", "eseed": rng.randrange(1 << 30),
@@ -244,7 +242,7 @@ def fails(case):
 def run(ctx):
     ev, out = ctx["ev"], ctx["out"]
     ev.rule = ("every graph on <=4 nodes over pair states {none,->,<-,<->} that Lean accepts as a MAG (ancestral, maximal) "
-               "[quick: all on <=3 nodes and a seed-dependent third of the 4-node ones; thorough: all, plus random 5-node MAGs]; "
+               "[thorough: plus random 5-node MAGs]; "
                "its PAG is computed from the definition by the Lean oracle (marks shared by every member of the Markov "
                "equivalence class, class enumerated with the proved m-separation model); pag_to_mag's result is validated by "
                "Lean against every clause (nodes, adjacencies, marks kept, no circle, acyclic, ancestral, no new unshielded "
@@ -273,7 +271,7 @@ def run(ctx):
             bad.append((case, d))
         elif v == "corr":
             corr.append((case, d))
-    ev.extra["exhaustive_part"] = "MAGs on <=3 nodes (thorough: <=4) and PAG instances on 3 nodes enumerated completely"
+    ev.extra["exhaustive_part"] = "MAGs on <=4 nodes and PAG instances on 3 nodes enumerated completely"
     if bad:
         ev.extra["disagreements_total"] = len(bad)
         kinds = {}
